@@ -38,7 +38,7 @@ PARSE_BEH = ["ok", "parseerror", "errs_only"] + list(range(1, NEXC))
 WHEN = ["always", "first-call", "second-call", "summary-only"]
 DOCS = ["Hello *world* L{x}", "", "one\n\ntwo <b>&amp;</b>\n    indented", "@param x: unknown\n@return: y"]
 FORMATS = ["epytext", "restructuredtext", "google", "numpy", "plaintext"]
-KINDS = ["function", "class", "module", "attribute"]
+KINDS = ["function", "inherited", "class", "module", "attribute"]
 
 
 class StubParsed(ParsedDocstring):
@@ -82,28 +82,39 @@ def run(beh, doc, fmt, processtypes, kind):
         if thresh < 0:
             s.violations += 1
     s.msg = msg
-    mod = model.Module(s, "m")
-    mod.parentMod = mod
-    s.addObject(mod)
-    if kind == "function":
-        f = model.Function(s, "f", mod)
-        f.annotations = {}
-    elif kind == "class":
-        f = model.Class(s, "f", mod)
-    elif kind == "attribute":
-        f = model.Attribute(s, "f", mod)
+    if kind == "inherited":
+        # the object under test shows a docstring it inherits: Derived.f overrides Base.f without a docstring of its own
+        b = s.systemBuilder(s)
+        b.addModuleString("class Base:\n    def f(self):\n        pass\nclass Derived(Base):\n    def f(self):\n        pass\ndef g():\n    pass\n", "m")
+        b.buildModules()
+        mod = s.allobjects["m"]
+        s.allobjects["m.Base.f"].docstring = doc
+        f = s.allobjects["m.Derived.f"]
+        g = s.allobjects["m.g"]
+        g.docstring = "fine"
     else:
-        f = model.Module(s, "f")
-        f.parentMod = f
-    if kind != "module":
-        f.parentMod = mod
-    f.docstring = doc
-    s.addObject(f)
-    g = model.Function(s, "g", mod)
-    g.parentMod = mod
-    g.docstring = "fine"
-    g.annotations = {}
-    s.addObject(g)
+        mod = model.Module(s, "m")
+        mod.parentMod = mod
+        s.addObject(mod)
+        if kind == "function":
+            f = model.Function(s, "f", mod)
+            f.annotations = {}
+        elif kind == "class":
+            f = model.Class(s, "f", mod)
+        elif kind == "attribute":
+            f = model.Attribute(s, "f", mod)
+        else:
+            f = model.Module(s, "f")
+            f.parentMod = f
+        if kind != "module":
+            f.parentMod = mod
+        f.docstring = doc
+        s.addObject(f)
+        g = model.Function(s, "g", mod)
+        g.parentMod = mod
+        g.docstring = "fine"
+        g.annotations = {}
+        s.addObject(g)
     calls = {"to_stan": 0}
 
     def parser(d, errs):
@@ -168,10 +179,11 @@ def check(beh, doc, fmt, processtypes, kind):
     if must_report and nrep < 1:
         note(why="failure not reported against the object", beh=beh, msgs=msgs)
         return False
-    if must_report and not any("m.f" in m[1] or ":" in m[1] for m in msgs if m[2] < 0):
+    if must_report and not any(":" in m[1] for m in msgs if m[2] < 0):
         note(why="report does not name the object's location", beh=beh, msgs=msgs)
         return False
-    if (parse_fatal or beh["parse"] == "errs_only") and "m.f" not in s.parse_errors["docstring"] and f.fullName() not in s.parse_errors["docstring"]:
+    owner = "m.Base.f" if kind == "inherited" else f.fullName()
+    if (parse_fatal or beh["parse"] == "errs_only") and owner not in s.parse_errors["docstring"]:
         note(why="object missing from parse_errors", beh=beh, errors={k: sorted(v) for k, v in s.parse_errors.items()})
         return False
     # every distinct problem is reported once (the same message is not repeated for the same object)
@@ -191,8 +203,8 @@ def check(beh, doc, fmt, processtypes, kind):
     timeout=(240, 2400), cls="F", tracing="concrete-after-choice", twin="first",
     code=["pydoctor.epydoc2stan.parse_docstring", "safe_to_stan", "format_docstring", "format_summary", "format_toc", "format_docstring_fallback", "format_summary_fallback",
           "reportErrors", "ensure_parsed_docstring", "_get_parsed_summary", "pydoctor.epydoc.markup.ParsedDocstring.get_summary/get_toc", "pydoctor.model.System.parse_errors"],
-    bounds={"quick": "parser behaviour (succeeds / ParseError / recoverable errors / 11 exception classes) x to_stan behaviour (succeeds / 11 exception classes; failing always, on the first call, on the second call, or when the summary is rendered first) x to_node (succeeds / NotImplementedError) x 2 docstrings x 5 docformats x process-types on/off x kind function",
-            "thorough": "same x 4 docstrings x 4 object kinds"},
+    bounds={"quick": "parser behaviour (succeeds / ParseError / recoverable errors / 11 exception classes) x to_stan behaviour (succeeds / 11 exception classes; failing always, on the first call, on the second call, or when the summary is rendered first) x to_node (succeeds / NotImplementedError) x 2 docstrings x 5 docformats x process-types on/off x object kind (function with its own docstring; method showing a docstring inherited from the base class)",
+            "thorough": "same x 4 docstrings x 5 object kinds"},
     stubs=["epydoc2stan.get_parser_by_name returns a stub parser for the object under test (plaintext for the bystander object)", "the ParsedDocstring returned by the stub raises per schedule"],
     outside="the real parsers on arbitrary docstring text; to_node raising anything but NotImplementedError; hangs",
 )
@@ -219,4 +231,4 @@ def h_fault_schedule(ts: int, tn: bool, di: int, fi: int, pt: bool, ki: int) -> 
 
 
 NDOC = tier(2, 4)
-NKIND = tier(1, 4)
+NKIND = tier(2, 5)
